@@ -1172,3 +1172,35 @@ TABLE["C09"] += [
     B("boost-alias-keeps-the-commas", {"W7"},
       (PW, "                    new_name = re.sub(\"[,:<> ]\", \"\", cpp_class)\n", "                    new_name = re.sub(\"[:<> ]\", \"\", cpp_class)\n")),
 ]
+TABLE["C02"] += [
+    B("property-instantiation-lists-swapped", {"S11"},
+      (TI + "classes.py", "            self.original.properties,\n            typenames,\n            self.instantiations,", "            self.original.properties,\n            self.instantiations,\n            typenames,")),
+    B("parent-class-instantiation-lists-swapped", {"S11"},
+      (TI + "classes.py", "                self.original.parent_class, typenames, self.instantiations,", "                self.original.parent_class, self.instantiations, typenames,")),
+]
+TABLE["C17"] += [
+    B("index-guard-conjunction", {"Q4"},
+      (XP, "        if not member_defs or documenting_index >= len(member_defs):", "        if not member_defs and documenting_index >= len(member_defs):")),
+    B("optional-parameter-counted-twice", {"Q5"},
+      (XP, "                1 if param.find(\"defval\") is not None else 0", "                2 if param.find(\"defval\") is not None else 0")),
+    B("counter-engaged-from-three-candidates", {"Q5"},
+      (XP, "        if len(member_defs) > 1:", "        if len(member_defs) > 2:")),
+    B("nameless-parameter-accepted", {"Q5"},
+      (XP, "                if param_name is None:\n                    # Can't find", "                if param_name is None:\n                    continue\n                if param_name is None:\n                    # Can't find")),
+    B("return-section-looked-up-and-dropped", {"Q7"},
+      (XP, "                docstring += f\"Returns: {return_para.text.strip()}\"", "                pass")),
+    B("overload-memory-never-created", {"U1"},
+      (XP, "        self._memory = {}\n", "")),
+    N("counter-guard-written-as-at-least-two",
+      (XP, "        if len(member_defs) > 1:", "        if len(member_defs) >= 2:")),
+    N("index-guard-as-two-exits",
+      (XP, "        if not member_defs or documenting_index >= len(member_defs):\n            return \"\"", "        if not member_defs:\n            return \"\"\n        if not documenting_index < len(member_defs):\n            return \"\"")),
+]
+TABLE["C03"] += [
+    B("values-insert-special-case-disjunction", {"A9"},
+      (PW, "            if method.name == 'insert' and cpp_class == 'gtsam::Values':", "            if method.name == 'insert' or cpp_class == 'gtsam::Values':")),
+    B("values-insert-special-case-for-every-class", {"A9"},
+      (PW, "            if method.name == 'insert' and cpp_class == 'gtsam::Values':", "            if method.name == 'insert':")),
+    N("values-insert-special-case-nested-tests",
+      (PW, "            if method.name == 'insert' and cpp_class == 'gtsam::Values':", "            if cpp_class == 'gtsam::Values' and (method.name == 'insert'):")),
+]
